@@ -89,8 +89,8 @@ pub fn zkey_from_folder() -> &'static (ProvingKey<Curve>, ConstraintMatrices<Fr>
 pub fn calculate_rln_witness<I: IntoIterator<Item = (String, Vec<Fr>)>>(
     inputs: I,
     graph_data: &[u8],
-) -> Vec<Fr> {
-    calc_witness(inputs, graph_data)
+) -> Result<Vec<Fr>> {
+    calc_witness(inputs, graph_data).map_err(Report::msg)
 }
 
 #[cfg(not(target_arch = "wasm32"))]
